@@ -9,6 +9,7 @@ import (
 	"encoding/pem"
 	"math/big"
 	"net"
+	"sync/atomic"
 	"time"
 )
 
@@ -25,9 +26,9 @@ type Leaf struct {
 	CertPEM, KeyPEM []byte
 }
 
-var serial = int64(1000)
+var serial atomic.Int64
 
-func nextSerial() *big.Int { serial++; return big.NewInt(serial) }
+func nextSerial() *big.Int { return big.NewInt(1000 + serial.Add(1)) }
 
 // NewCA mints a self-signed CA.
 func NewCA(cn string) *CA {
@@ -41,6 +42,29 @@ func NewCA(cn string) *CA {
 		IsCA: true, BasicConstraintsValid: true, KeyUsage: x509.KeyUsageCertSign | x509.KeyUsageDigitalSignature,
 	}
 	der, err := x509.CreateCertificate(rand.Reader, tpl, tpl, &key.PublicKey, key)
+	if err != nil {
+		panic(err)
+	}
+	cert, _ := x509.ParseCertificate(der)
+	return &CA{Cert: cert, Key: key, CertPEM: pem.EncodeToMemory(&pem.Block{Type: "CERTIFICATE", Bytes: der})}
+}
+
+// Sub mints an intermediate certificate under the CA (isCA false gives a certificate that has
+// signed leaves without being allowed to).
+func (ca *CA) Sub(cn string, isCA bool, notBefore, notAfter time.Time) *CA {
+	key, err := ecdsa.GenerateKey(elliptic.P256(), rand.Reader)
+	if err != nil {
+		panic(err)
+	}
+	tpl := &x509.Certificate{
+		SerialNumber: nextSerial(), Subject: pkix.Name{CommonName: cn},
+		NotBefore: notBefore, NotAfter: notAfter,
+		IsCA: isCA, BasicConstraintsValid: true, KeyUsage: x509.KeyUsageCertSign | x509.KeyUsageDigitalSignature,
+	}
+	if !isCA {
+		tpl.KeyUsage = x509.KeyUsageDigitalSignature
+	}
+	der, err := x509.CreateCertificate(rand.Reader, tpl, ca.Cert, &key.PublicKey, ca.Key)
 	if err != nil {
 		panic(err)
 	}
